@@ -276,8 +276,9 @@ def table(types_u, types_s):
 
 def plan(tier):
     thorough = tier == 'thorough'
-    uns = ['u8', 'u16', 'u32', 'u64'] + (['u128'] if thorough else [])
-    sig = ['i8', 'i16', 'i32', 'i64'] + (['i128'] if thorough else [])
+    # 'u64l'/'i64l' = unsigned long long / long long: distinct intrinsic specialisations from unsigned long / long on LP64
+    uns = ['u8', 'u16', 'u32', 'u64', 'u64l'] + (['u128'] if thorough else [])
+    sig = ['i8', 'i16', 'i32', 'i64', 'i64l'] + (['i128'] if thorough else [])
     rows = table(uns, sig)
     head = KERNEL_HEAD + '#include <cnl/bit.h>\n#include <cnl/numeric.h>\n'
     src = {'clang': [head], 'gcc': [head]}
